@@ -346,8 +346,46 @@ def task_concrete():
     return col.pack()
 
 
+def task_adjoint():
+    """maps._interp_volume_average_adj: a function of its arguments only -- one operator from THIS call's grids, its transpose applied to the
+    three rows of nval and ADDED to the three rows of oval; no module-level state, no cache"""
+    from .cxutil import module_state_used
+    col = ob.Collector(PROP, 'maps._interp_volume_average_adj')
+    col.default_replay = replay
+    col.function('maps._interp_volume_average_adj')
+
+    def mk(ctx):
+        og = cx.Obj('TensorMesh', dict(shape_cells=tuple(z3.Ints('o0 o1 o2'))))
+        ng = cx.Obj('TensorMesh', dict(shape_cells=tuple(z3.Ints('n0 n1 n2'))))
+        oval, nval = cx.NDArr(cx.Store('oval')), cx.NDArr(cx.Store('nval'))
+        return [oval, og, nval, ng], {}, dict(oval=oval, nval=nval, og=og, ng=ng)
+    res = cx.run_function('maps._interp_volume_average_adj', mk, pc0=[], summaries={}, opts={})
+
+    def structure(r):
+        if r.outcome != 'return':
+            return False
+        st = r.state
+        va = [e for e in r.events if e['kind'] == 'libcall' and e['name'] == 'discretize.utils.volume_average']
+        if len(va) != 1 or list(va[0]['args']) != [st['og'], st['ng']] or va[0]['kwargs']:
+            return False
+        ms = r.mutations()
+        if len(ms) != 3 or any(m['store'] is not st['oval'].store or m.get('how') != 'Add=' for m in ms):
+            return False
+        keys = [m['arr'].view[1] if isinstance(m['arr'].view, tuple) else None for m in ms]
+        return [k[0] if isinstance(k, tuple) else None for k in keys] == [0, 1, 2] and all(k[1:] == (Ellipsis,) for k in keys)
+    clause(col, 'one_operator_from_this_calls_grids_applied_to_rows_0_1_2_and_added_to_oval_only', res, structure)
+    used = module_state_used('maps._interp_volume_average_adj') | module_state_used('maps.interpolate') | module_state_used('maps.interp_volume_average')
+    if used:
+        # a cache can be right or wrong: whether the operator still belongs to this call's grids is outside this contract
+        col.undecided('no_module_level_mutable_state_or_cache_is_used', f'uses module-level state {sorted(used)}: not a function of its arguments alone; '
+                      'the bounded concrete check (sequence of grid pairs) decides')
+    else:
+        col.lia('no_module_level_mutable_state_or_cache_is_used', [], z3.BoolVal(True))
+    return col.pack()
+
+
 def tasks(tier):
-    return [('contracts.c15', n, {}) for n in ('task_weights', 'task_interp_volume_average', 'task_interpolate_wrapper', 'task_interpolate_to_grid',
+    return [('contracts.c15', n, {}) for n in ('task_adjoint', 'task_weights', 'task_interp_volume_average', 'task_interpolate_wrapper', 'task_interpolate_to_grid',
                                               'task_log_symmetry', 'task_concrete')]
 
 
@@ -357,4 +395,5 @@ LEVEL = ('Proof over the real source of the weight computation (loop invariants 
 ASSUMPTIONS = ['np.unique(np.concatenate((x_i, x_o))) is strictly increasing and contains exactly the nodes of both grids (dependency contract)',
                'array-fill induction: if every iteration writes only position ii (then increments it) and the written entry satisfies P, all returned entries satisfy P',
                'conservation of the integral, range and identity on equal grids: bounded exhaustive check only (not proved)',
-               'the pairing with discretize.utils.volume_average (adjoint used for the gradient) is not covered']
+               'discretize.utils.volume_average(g1, g2) is the matrix of interpolate(g1, ., g2, method=volume): assumed; checked by inner products in the bounded concrete run '
+               '(sequence of grid pairs with equal bounding box and cell counts)']
